@@ -45,8 +45,8 @@ Fixpoint json_encode_body (skip : nat) (s : bytes) : bytes :=
         | None => [92; 117; 102; 102; 102; 100] ++ json_encode_body O r               (* �, size 1 *)
         | Some n =>
           match r with
-          | 128 :: c :: r' =>
-            if (b =? 226) && ((c =? 168) || (c =? 169)) then                            (* U+2028 / U+2029 *)
+          | b1 :: c :: r' =>
+            if (b =? 226) && (b1 =? 128) && ((c =? 168) || (c =? 169)) then                 (* U+2028 / U+2029 *)
               [92; 117; 50; 48; 50; hexdigit (c - 160)] ++ json_encode_body O r'
             else b :: json_encode_body (Nat.pred n) r
           | _ => b :: json_encode_body (Nat.pred n) r
